@@ -8,7 +8,7 @@ import os
 import build, zv, frames, datagen
 
 ASSUMPTIONS = ["reads with offset+length beyond the content are outside the property's quantifier (they are clamped by the reader); only verdicts are compared on corrupted archives",
-               "the seek-table WRITER is tied through `tbl` (what the real writer emitted is parsed by the model loader and must describe the real frame layout), not by a byte-for-byte serializer comparison"]
+               "the seek-table WRITER model is tied byte for byte: Seekable.serialize of the loaded entries must equal the tail of every archive the real writer produced (tblser)"]
 SRC = ["zvh_seek.c", os.path.join(build.REPO, "contrib/seekable_format/zstdseek_compress.c"), os.path.join(build.REPO, "contrib/seekable_format/zstdseek_decompress.c")]
 
 
@@ -92,6 +92,15 @@ def correspondence(ctx):
         for mode in "bfc":
             r_ops.append("rd %s %s %s" % (mode, a, rs))
             r_want.append("xxhr %s %s" % (frames.hx(x), rs))
+    # writer model byte for byte: serialize(load(archive)) must be the tail of the archive the real writer produced (theorem seektable_roundtrip
+    # is about this serializer)
+    s_ops = sorted({"tblser " + op_.split()[1] for op_ in t_ops if op_.startswith("tbl ")})
+    sm = frames.parallel(lambda ch: frames.model_lines(ch, timeout=3600), frames.split_chunks(s_ops, 16))
+    for op_, m in zip(s_ops, sm):
+        ev += 1
+        if m != "same":
+            ctx.violation("seek-table writer model differs from the bytes ZSTD_seekable_writeSeekTable emitted: %s" % m, dict(kind="tie", correspondence="Seekable.serialize vs zstdseek_compress.c", op=op_[:300000], model=m), no_input=True)
+            break
     tc = frames.parallel(lambda ch: frames.run_lines(exe, ch, timeout=1800)[1], frames.split_chunks(t_ops, 16))
     tm = frames.parallel(lambda ch: frames.model_lines(ch, timeout=3600), frames.split_chunks(t_ops, 16))
     for op_, c, m in zip(t_ops, tc, tm):
